@@ -22,6 +22,7 @@ fn main() {
             match suite {
                 "C12" => suites::c12::gen(tier, seed, &mut emit),
                 "C15" => suites::c15::gen(tier, seed, &mut emit),
+                "C01" => suites::c01::gen(tier, seed, &mut emit),
                 "C02" => suites::c02::gen(tier, seed, &mut emit),
                 "C03" => suites::c03::gen(tier, seed, &mut emit),
                 "C04" => suites::c04::gen(tier, seed, &mut emit),
